@@ -317,6 +317,9 @@ impl GlobWalker {
                     .skip(depth)
                     .filter_map(|component| match component {
                         Component::Normal(component) => Some(CandidatePath::from(component)),
+                        // Parent directory components in an invariant prefix are also components
+                        // of the glob and so have a component program.
+                        Component::ParentDir => Some(CandidatePath::from("..")),
                         _ => None,
                     })
                     .zip_longest(self.program.components.iter().skip(depth))
